@@ -614,7 +614,7 @@ class FatPath:
             if i == 1:
                 del parts[1]
             else:
-                del parts[i - 1:i]
+                del parts[i - 1:i + 1]
         result = FatPath(fs, *parts)
         if strict:
             result._must_exist()
